@@ -6,7 +6,7 @@ import RTV.Gen.RegexesChoice
 import RTV.Gen.CharTables
 import RTV.Gen.Emoji
 /-! Driver handlers for L11 `Choice` (C20).
-  bool.rec <fixed|prefix> <cps>                          -> start:stop:textcps:0|1;…     (recognize_boolean)  | err:Other
+  bool.rec <fixed|prefix> <cps>                          -> start:stop:textcps:0|1:num/den;…  (recognize_boolean; the reported score)  | err:Other
   bool.extract <fixed|prefix> <cps>                      -> start:len:textcps:0|1:num/den;…                  | err:Other
   bool.tok <cps>                          -> cps;cps;…   (`-` for none: `none`)
   bool.mv <miss> <start> <n> <src tok>… <match tok>…   -> num/den | err:ZeroDivisionError
@@ -30,7 +30,7 @@ def showScore (s : Score) : String := s!"{s.num}/{s.den}"
 
 def hBoolRec : Handler
   | [w, q] => match recognise (pickEnv w) (parseCps q) with
-    | some rs => ";".intercalate (rs.map fun r => s!"{r.start}:{r.stop}:{showCps r.text}:{showBool r.value}")
+    | some rs => ";".intercalate (rs.map fun r => s!"{r.start}:{r.stop}:{showCps r.text}:{showBool r.value}:{showScore r.score}")
     | none => "err:Other"
   | _ => "bad-op"
 
